@@ -535,6 +535,10 @@ class Values(Term):
         super().__init__(None)
         self.field = Field(field) if not isinstance(field, Field) else field
 
+    def nodes_(self) -> Iterator[NodeT]:
+        yield self  # type:ignore[misc]
+        yield from self.field.nodes_()
+
     def get_sql(self, ctx: SqlContext) -> str:
         return "VALUES({value})".format(value=self.field.get_sql(ctx))
 
@@ -1752,6 +1756,10 @@ class AtTimezone(Term):
         self.field = Field(field) if not isinstance(field, Field) else field
         self.zone = zone
         self.interval = interval
+
+    def nodes_(self) -> Iterator[NodeT]:
+        yield self  # type:ignore[misc]
+        yield from self.field.nodes_()
 
     def get_sql(self, ctx: SqlContext) -> str:
         sql = "{name} AT TIME ZONE {interval}'{zone}'".format(
